@@ -21,6 +21,7 @@ import (
 	"github.com/basecomplextech/spec/mpx"
 
 	"verifharness/internal/mpxh"
+	"verifharness/internal/tscale"
 )
 
 type Event struct {
@@ -263,7 +264,7 @@ func runOnce(run int, c cfg, found func(sig, detail string)) []Event {
 	go func() { wg.Wait(); close(done) }()
 	select {
 	case <-done:
-	case <-time.After(20 * time.Second):
+	case <-time.After(tscale.D(20 * time.Second)):
 		found("hang:run", "client operations did not finish within 20 s")
 	}
 	select {
@@ -287,14 +288,14 @@ func runOnce(run int, c cfg, found func(sig, detail string)) []Event {
 		if c.Auto {
 			select {
 			case <-cl.Connected().Wait():
-			case <-time.After(4 * time.Second):
+			case <-time.After(tscale.D(4 * time.Second)):
 				found("no-reconnect", "auto-connect client did not become connected within 4 s after the server came back")
 			}
 		}
 		var last status.Status
 		ok := false
 		for try := 0; try < 4 && !ok; try++ {
-			last = echo(cl, 2*time.Second)
+			last = echo(cl, tscale.D(2*time.Second))
 			ok = last.OK()
 		}
 		if !ok {
